@@ -4,9 +4,11 @@
 package main
 
 import (
+	"flag"
 	"os"
 	"runtime"
 	"strings"
+	"syscall"
 
 	"pvharness/lib"
 )
@@ -32,6 +34,14 @@ func main() {
 	}
 	r := lib.Init()
 	defer r.Close()
+	// the library prints on stdout/stderr (generation side pass runs Parse here): discard it
+	// when the records go to a file
+	if o := flag.Lookup("out"); o != nil && o.Value.String() != "" {
+		if dn, err := os.OpenFile(os.DevNull, os.O_WRONLY, 0); err == nil {
+			syscall.Dup2(int(dn.Fd()), 1)
+			syscall.Dup2(int(dn.Fd()), 2)
+		}
+	}
 	rng := r.Rand()
 	n := runtime.NumCPU()
 	if n > 16 {
@@ -58,6 +68,15 @@ func main() {
 	genHBH(cl, rng.Fork(), scale)
 	genMDNS(cl, rng.Fork(), scale)
 	genNBNS(cl, rng.Fork(), scale)
+	genDHCPOpt(cl, rng.Fork(), scale)
+	genLLDP(cl, rng.Fork(), scale)
+	gen8023(cl, rng.Fork(), scale)
+	genSSDP(cl, rng.Fork(), scale)
+	genARP(cl, rng.Fork(), scale)
+	genICMP4(cl, rng.Fork(), scale)
+	genICMP6(cl, rng.Fork(), scale)
+	genDHCP4(cl, rng.Fork(), scale)
+	genDNSProc(cl, rng.Fork(), scale)
 
 	// every endless loop costs its time-out: once the budget of observed hangs is used up the
 	// remaining cases of hang-prone classes are dropped (deterministic: fixed chunks, fixed order)
@@ -88,6 +107,13 @@ func main() {
 		obs := p.runAll(lines)
 		for j, i := range idx {
 			f := strings.Fields(cl.lines[i])
+			if f[0] == "dnsproc" { // Go-side oracle: decoders modelled by the DNS cluster
+				r.Stat("oracle.dnsproc."+obs[j], 1)
+				if strings.HasPrefix(obs[j], "panic") || obs[j] == "fuel" {
+					r.Viol("dns-processdns-"+obs[j], "ProcessDNS "+obs[j]+" on a frame accepted by Parse", cl.lines[i])
+				}
+				continue
+			}
 			r.Case(f[0], f[1:], obs[j])
 			r.Stat("class."+cl.class[i], 1)
 			r.Stat("obs."+f[0]+"."+obs[j], 1)
